@@ -435,6 +435,27 @@ def memberPin (I : Inst) (m k : Nat) : Option (Option XVal) :=
   | some (b, hh) => pinValue I.t0 b hh
   | none => some none
 
+/-! ## bounds keyed by an alias of the variable -/
+
+def Side.neg : Side → Side
+  | .none => .none
+  | .sc x => .sc x.neg
+  | .vec xs => .vec (xs.map EVal.neg)
+  | .ts1 t vs => .ts1 t (vs.map EVal.neg)
+  | .ts2 t rows => .ts2 t (rows.map fun r => r.map EVal.neg)
+
+/-- the pair stored for the canonical variable when the user's `bounds()` entry `(lo, hi)` is keyed
+    by an alias (`AliasDict.__setitem__`): unchanged for a plain alias, swapped and negated for a
+    negated alias `a = -x` (`lo ≤ -x ≤ hi` is `-hi ≤ x ≤ -lo`).  A `None` side under a negated
+    alias makes the code raise (`-None`); the totalised model keeps it unbounded, the generators
+    give `∓inf` there instead. -/
+def aliasSides (negated : Bool) (lo hi : Side) : Side × Side :=
+  if negated then (hi.neg, lo.neg) else (lo, hi)
+
+/-- a slot whose bound pair was given under an alias -/
+def Blk.underAlias (b : Blk) (negated : Bool) : Blk :=
+  { b with lo := (aliasSides negated b.lo b.hi).1, hi := (aliasSides negated b.lo b.hi).2 }
+
 /-! ## several sources of scalar bounds (user `bounds()`, Modelica `min`/`max` attributes) -/
 
 /-- `m = max(m, m_)` over all sources, starting from −inf -/
